@@ -145,9 +145,13 @@ func genSD(t *rapid.T, label string) SD {
 func GenSpec(t *rapid.T) *Spec {
 	g := &secretGen{}
 	s := &Spec{}
-	s.Interval = rapid.SampledFrom([]string{"", "15s", "30s", "1m"}).Draw(t, "gInterval")
+	s.Interval = rapid.SampledFrom([]string{"", "15s", "30s", "1m", "5s"}).Draw(t, "gInterval")
 	if s.Interval != "" && rapid.Bool().Draw(t, "gTimeoutOn") {
 		s.Timeout = rapid.SampledFrom([]string{"5s", "10s"}).Draw(t, "gTimeout")
+	}
+	if s.Interval == "5s" {
+		// a short global interval needs a global timeout that is not above it (the default is 10s)
+		s.Timeout = rapid.SampledFrom([]string{"4s", "5s"}).Draw(t, "gShortTimeout")
 	}
 	s.EvalInterval = rapid.SampledFrom([]string{"", "15s", "45s"}).Draw(t, "gEval")
 	if rapid.Bool().Draw(t, "extOn") {
